@@ -103,8 +103,67 @@ def run(run):
     _digest_element(run, F, PV, K, "hashlib.sha256(self.key.to_string() + self._auth_data).digest()",
                     "self.message.report_data.field", "SgxReportBody(self._message)", "sgx_attestation_key")
     _x509(run, F, PV, X)
+    for cls_, rid_, label_, expd, fld in ((Q, "R1", "sgx_quote", "hashlib.sha256(self._custom_data).digest()", "self.message.report_body.report_data.field"),
+                                         (K, "R2", "sgx_attestation_key", "hashlib.sha256(self.key.to_string() + self._auth_data).digest()",
+                                          "self.message.report_data.field")):
+        c_ = P.method(cls_, "is_valid").params[1]
+        _closed_world(run, PV, cls_, rid_, label_, [
+            f"{expd} != {fld}[:len({expd})]", f"{fld}[:32]",
+            f"{c_}.get_pubkey().verify_digest(self._signature, hashlib.sha256(self._message).digest(), ecdsa.util.sigdecode_der)"], c_)
+    cx = P.method(X, "is_valid").params[1]
+    _closed_world(run, PV, X, "R3", "x509", [
+        f"isinstance({cx}, type(self))", "self.certificate.not_valid_before_utc > datetime.now(UTC)", "self.certificate.not_valid_after_utc < datetime.now(UTC)",
+        f"{cx}.certificate.public_key().verify(self.certificate.signature, self.certificate.tbs_certificate_bytes, ec.ECDSA(self.certificate.signature_hash_algorithm))"], cx)
     _values(run, PV, Q, K)
     _layout(run)
+
+
+def _closed_world(run, PV, cls, rid, label, roots, cert):
+    """Nothing but the specified checks can make is_valid reject: every condition and every call of the method is (part of) one of the
+    specified expressions - an extra `hardening` test or an extra call that may raise turns sound chains into failures."""
+    P, A = run.P, run.A
+    fn = P.method(cls, "is_valid")
+    g = A.cfg(fn, cls)
+    roots = [_strip(canon_text(run, fn, cls, r)) for r in roots]
+
+    def part_of(t):
+        return any(t in r for r in roots)
+    extra = []
+    n_seen = 0
+    for n in g.nodes:
+        if n.kind != "cond":
+            continue
+        n_seen += 1
+        e = n.ast
+        while isinstance(e, ast.UnaryOp) and isinstance(e.op, ast.Not):
+            e = e.operand
+        for x in expansions(run, PV, fn, cls, e, n):
+            x = _strip(x)
+            try:
+                xe = ast.parse(x, mode="eval").body
+            except SyntaxError:
+                xe = None
+            sides = [_strip(norm(xe.left)), _strip(norm(xe.comparators[0]))] if isinstance(xe, ast.Compare) and len(xe.ops) == 1 else [x]
+            if not all(part_of(sd) or re.fullmatch(r"-?\d+", sd) for sd in sides):
+                extra.append(("condition", x, n))
+    for c in A.own_nodes(fn):
+        if isinstance(c, ast.Call) and not (isinstance(c.func, ast.Attribute) and isinstance(c.func.value, ast.Attribute) and c.func.value.attr == "logger"):
+            for cn in g.nodes_of(c):
+                n_seen += 1
+                for x in expansions(run, PV, fn, cls, c, cn):
+                    if not part_of(_strip(x)):
+                        extra.append(("call", _strip(x), cn))
+    run.floor(rid, f"conditions and calls of {label}.is_valid compared with the specification", n_seen, 4)
+    seen_ = set()
+    for kind, x, n in extra:
+        if (kind, x) in seen_:
+            continue
+        seen_.add((kind, x))
+        run.fail(rid, f"{cls.name}.is_valid|extra-{kind}|{x[:60]}", fn.loc(n.ast) if n.ast is not None else fn.loc(),
+                 f"{label}.is_valid has the additional {kind} `{x[:120]}`: an element whose chain is sound can be reported invalid (the specification names the "
+                 "checks that may reject, and no others)")
+    if not extra:
+        run.ok(rid, f"{label}.is_valid: no condition or call beyond the specified ones", fn.loc())
 
 
 def _digest_element(run, F, PV, cls, want_expected, want_field, want_msg, label):
